@@ -456,6 +456,22 @@ class FnEmitter:
         self.ret_no = 0
         self.tmp_no = 0
         self.spec = gen.spec_for(fn.cname) if fn else None
+        if self.spec is not None and fn is not None:
+            # contracts mention parameters by name; the names the contract was written against are recorded in specs/params.json.  If the code renamed
+            # parameters (same number, same order) the contract text follows the renaming - a renamed parameter is not a change of behaviour.
+            was = gen.recorded_params.get(fn.cname); now = [p.get('name') for p in fn.params]
+            if was and len(was) == len(now) and was != now and all(now) and all(was):
+                import copy
+                ren = {a: b for a, b in zip(was, now) if a != b}
+                def sub(t):
+                    t = re.sub(r'\b(' + '|'.join(map(re.escape, ren)) + r')\b', lambda m_: '\x00' + m_.group(1) + '\x00', t)
+                    return re.sub(r'\x00([^\x00]+)\x00', lambda m_: ren[m_.group(1)], t)
+                sp = copy.copy(self.spec)
+                sp.contract = [(sub(t), ln) for t, ln in self.spec.contract]
+                sp.loops = {k: [(sub(t), ln) for t, ln in v] for k, v in self.spec.loops.items()}
+                sp.ghost = {k: [(sub(t), ln) for t, ln in v] for k, v in self.spec.ghost.items()}
+                self.spec = sp
+                gen.report.setdefault('renamed_parameters', []).append(f"{fn.cname}: " + ', '.join(f"{a}->{b}" for a, b in ren.items()))
         self.used_anchors = set()
         self.lambda_no = 0
         self.names = {}             # decl id -> C identifier
@@ -1486,6 +1502,7 @@ class Generator:
         self.known_cnames = set()
         self.report = {'translated': [], 'skipped': [], 'excluded': []}
         self.loop_invs = {}
+        self.recorded_params = {}
         self.used_specs = set()
         self.helper_protos = collections.OrderedDict(); self.helper_bodies = collections.OrderedDict()
         self.pending_helpers = []
@@ -1969,6 +1986,8 @@ def run(ast_dir, spec_paths, excluded_path, out_c, out_map, out_report, layouts_
         if os.path.getsize(p) == 0: continue
         tu = TU(ctx, p); tu.index_all(load_docs(p)); tus.append(tu)
     gen = Generator(ctx, fnspecs, excluded)
+    pj = os.path.join(os.path.dirname(os.path.abspath(spec_paths[0])), 'params.json') if spec_paths else None
+    if pj and os.path.exists(pj): gen.recorded_params = json.load(open(pj))
     gen.assign_names()
     gen.known_cnames = set(f.cname for f in ctx.funcs.values() if f.cname)
     # translate functions first (this also discovers the vector models that are needed)
@@ -2071,7 +2090,7 @@ def run(ast_dir, spec_paths, excluded_path, out_c, out_map, out_report, layouts_
         harnesses = [h for h in harnesses if h['enforce'] != nm]
         for h in harnesses: h['replace'] = [x for x in h['replace'] if x != nm]
     json.dump({'lines': linemap, 'harnesses': harnesses, 'slices': slices, 'loop_invariants': gen.loop_invs}, open(out_map, 'w'), indent=0)
-    rep = {'ghost_stripped': sorted(strip_ghost), 'unused_loop_contracts': gen.report.get('unused_loop_contracts', []), 'helper_specs': helper_specs, 'dropped_helper_contracts': dropped, 'translated': gen.report['translated'], 'skipped': gen.report['skipped'], 'excluded': gen.report['excluded'],
+    rep = {'renamed_parameters': gen.report.get('renamed_parameters', []), 'param_names': {f.cname: [p.get('name') for p in f.params] for f in ctx.funcs.values() if f.cname and f.cname in fnspecs}, 'ghost_stripped': sorted(strip_ghost), 'unused_loop_contracts': gen.report.get('unused_loop_contracts', []), 'helper_specs': helper_specs, 'dropped_helper_contracts': dropped, 'translated': gen.report['translated'], 'skipped': gen.report['skipped'], 'excluded': gen.report['excluded'],
            'spec_without_target': missing, 'n_records': len(ctx.records), 'n_enums': len(ctx.enums),
            'cnames': {f.cname: {'q': f.q, 'type': f.type_str, 'has_body': f.body is not None} for f in ctx.funcs.values() if f.cname}}
     for nm in gen.helper_protos: rep['cnames'][nm] = {'q': nm + ' (generated helper)', 'type': gen.helper_protos[nm], 'has_body': True}
